@@ -89,6 +89,10 @@ def gen(rng, tier, i):
             p.cycle(tick())
         if rng.random() < 0.3:
             cmd(action(False, 'u0'))
+        if cls == 'error' and rng.random() < 0.25:
+            # a call_out that fails: it runs in the same tick as the heart beats, after them, and is nobody's heart beat
+            extra[0] += 1
+            cmd('co zc%d %d bomb %d %s' % (extra[0], rng.choice((1, 2, 3)), 200 + extra[0], rng.choice(('err', 'typeerr', 'throw'))))
         if rng.random() < 0.15:
             cmd('hbs')
     cmd('hbs')
@@ -158,7 +162,8 @@ def check(plan, res):
                 k, inr = pos(e)
                 if inr:
                     err_ticks.add(k)
-                    if last_hb: objs.setdefault(last_hb, []).append(('failed', k, True))
+                    # (a call_out that fails in the same tick is nobody's heart beat)
+                    if last_hb and 'trace=co_fire@' not in e.rest: objs.setdefault(last_hb, []).append(('failed', k, True))
             elif w[0] == 'HBS':
                 # LPC-visible list must agree with what the records say is enabled (between ticks only)
                 k, inr = pos(e)
